@@ -162,6 +162,10 @@ func (m *MClaims) Clone() *MClaims {
 	if m.Nonces != nil {
 		var ns [][]byte
 		for _, x := range *m.Nonces {
+			if x == nil {
+				ns = append(ns, nil) // a null entry stays one
+				continue
+			}
 			ns = append(ns, append([]byte{}, x...))
 		}
 		if ns == nil {
@@ -579,6 +583,10 @@ func (m *MClaims) ClassVector() string {
 	} else {
 		var ls []string
 		for _, n := range *m.Nonces {
+			if n == nil {
+				ls = append(ls, "null")
+				continue
+			}
 			ls = append(ls, fmt.Sprint(len(n)))
 		}
 		sb.WriteString("(" + strings.Join(ls, ",") + ")")
